@@ -244,7 +244,10 @@ class TranslatorZ3(Translator):
                 else:
                     raise NotImplementedError("Unsupported OP yet: %s" % expr.op)
         elif expr.op == 'parity':
-            arg = z3.Extract(7, 0, res)
+            if res.size() < 8:
+                arg = z3.ZeroExt(8 - res.size(), res)
+            else:
+                arg = z3.Extract(7, 0, res)
             res = z3.BitVecVal(1, 1)
             for i in range(8):
                 res = res ^ z3.Extract(i, i, arg)
